@@ -688,6 +688,9 @@ func (bal *Balancer) balanceBlock(blkid arvados.SizedDigest, blk *BlockState) ba
 		// trashing replicas that aren't optimal positions for
 		// any storage class.
 		protMnt := map[*KeepMount]bool{}
+		// Backend devices of the protected positions: a device
+		// that is mounted more than once is counted once.
+		protDev := map[string]bool{}
 		// Replication planned so far (corresponds to wantMnt).
 		replWant := 0
 		// Protected replication (corresponds to protMnt).
@@ -703,9 +706,15 @@ func (bal *Balancer) balanceBlock(blkid arvados.SizedDigest, blk *BlockState) ba
 				// different server.
 				return false
 			}
-			if replProt < desired && slot.repl != nil && !protMnt[slot.mnt] {
+			if replProt < desired && slot.repl != nil && !protMnt[slot.mnt] && !protDev[slot.mnt.DeviceID] && bal.mountsByClass[class][slot.mnt] {
+				// Only a replica on a mount of this
+				// class can keep the class at its
+				// desired replication.
 				unsafeToDelete[slot.repl.Mtime] = true
 				protMnt[slot.mnt] = true
+				if slot.mnt.DeviceID != "" {
+					protDev[slot.mnt.DeviceID] = true
+				}
 				replProt += slot.mnt.Replication
 			}
 			if replWant < desired && (slot.repl != nil || !slot.mnt.ReadOnly) {
@@ -740,9 +749,13 @@ func (bal *Balancer) balanceBlock(blkid arvados.SizedDigest, blk *BlockState) ba
 
 		if !underreplicated {
 			safe := 0
+			safeDev := map[string]bool{}
 			for _, slot := range slots {
-				if slot.repl == nil || !bal.mountsByClass[class][slot.mnt] {
+				if slot.repl == nil || !bal.mountsByClass[class][slot.mnt] || safeDev[slot.mnt.DeviceID] {
 					continue
+				}
+				if slot.mnt.DeviceID != "" {
+					safeDev[slot.mnt.DeviceID] = true
 				}
 				if safe += slot.mnt.Replication; safe >= desired {
 					break
@@ -756,7 +769,7 @@ func (bal *Balancer) balanceBlock(blkid arvados.SizedDigest, blk *BlockState) ba
 		// haven't already been added to unsafeToDelete
 		// because the servers report different Mtimes.
 		for _, slot := range slots {
-			if slot.repl != nil && wantDev[slot.mnt.DeviceID] {
+			if slot.repl != nil && (wantDev[slot.mnt.DeviceID] || protDev[slot.mnt.DeviceID]) {
 				unsafeToDelete[slot.repl.Mtime] = true
 			}
 		}
